@@ -81,7 +81,7 @@ func (f *Frame) execInstr(in ssa.Instruction, st *State, reach Term) {
 		et := in.Type().Underlying().(*types.Slice).Elem()
 		comp := c.elemComp(et)
 		as := elemOfArr(c.compSort[comp])
-		c.set(st, comp, tStore(c.get(st, comp), r, T(as, fmt.Sprintf("((as const %s) %s)", as, c.zero(et).S))))
+		c.set(st, comp, tStore(c.get(st, comp), r, c.constArray(as, c.zero(et))))
 		f.vals[in] = c.define(f.name(in.Name()), app(SSlice, "mk_Slice", r, c.intConst(0, c.I()), ln, cp))
 		if c.safety["slice"] {
 			c.oblige("nopanic", f.oname("nopanic:makeslice", in), reach,
@@ -123,6 +123,17 @@ func (f *Frame) execInstr(in ssa.Instruction, st *State, reach Term) {
 	case *ssa.Lookup:
 		f.lookup(in, st, reach)
 	case *ssa.Select:
+		{
+			var sent []Val
+			for _, s := range in.States {
+				if s.Dir == types.SendOnly {
+					sent = append(sent, f.valTyped(s.Send))
+				}
+			}
+			if len(sent) > 0 {
+				f.checkSites(in, st, reach, sent)
+			}
+		}
 		c.note("select statement: nondeterministic choice, received values havocked")
 		tup := in.Type().(*types.Tuple)
 		var res []Term
@@ -217,6 +228,22 @@ func (f *Frame) execInstr(in ssa.Instruction, st *State, reach Term) {
 	default:
 		panic(fmt.Sprintf("%s: unsupported instruction %T", f.fn, in))
 	}
+}
+
+// constArray is the array holding v everywhere. cvc5 only accepts literal
+// values in (as const ...), so other element values get a fresh array with a
+// quantified definition.
+func (c *Ctx) constArray(as Sort, v Term) Term {
+	lit := !strings.ContainsAny(v.S, "!") && !strings.Contains(v.S, "str_empty") && !strings.Contains(v.S, "nil_iface") &&
+		!strings.Contains(v.S, "zero_") && !strings.Contains(v.S, "strlit")
+	if lit {
+		return T(as, fmt.Sprintf("((as const %s) %s)", as, v.S))
+	}
+	a := c.fresh("constarr", as)
+	c.nfresh++
+	i := fmt.Sprintf("i!q%d", c.nfresh)
+	c.assume(T(SBool, fmt.Sprintf("(forall ((%s %s)) (= (select %s %s) %s))", i, keyOfArr(as), a.S, i, v.S)), false)
+	return a
 }
 
 func (f *Frame) bindResults(v ssa.Value, sig *types.Tuple, res []Term) {
